@@ -51,6 +51,12 @@ def gen(ctx):
             for off in OFFSETS:
                 for is_hash, suf in SUFFIXES:
                     cases.append({"kind": "grid", "base": list(b), "origin": origin, "offset": off, "hash": is_hash, "suffix": suf})
+    # origins of two digits: long bases
+    long_base = tuple(["a", "3"] * 7)
+    for origin in (9, 10, 11, 12, 13, 14, 15):
+        for off in (0, 1, -1):
+            for is_hash, suf in SUFFIXES[:4]:
+                cases.append({"kind": "grid", "base": list(long_base), "origin": origin, "offset": off, "hash": is_hash, "suffix": suf})
     for s in MALFORMED:
         for b in [(), ("a",), ("a", "2")]:
             cases.append({"kind": "malformed", "base": list(b), "text": s})
@@ -93,6 +99,24 @@ def evaluate(ctx, cases):
                 ctx.mismatch("rel.to", {"text": text, "base": base_s}, impl, m["str"])
             if "err" in o and o.get("family") not in ("relpointer", "pointer"):
                 ctx.violation("applying a relative pointer may only fail with a pointer error", {"text": text, "base": base_s}, o["err"], "pointer error family")
+            if ctx.rng.random() < (0.08 if ctx.tier == "quick" else 0.4):
+                # the other three ways of writing the same application, and what the result resolves to
+                ctx.count("to-forms")
+                forms = {
+                    "RelativeJSONPointer(text).to(base text)": lambda: RelativeJSONPointer(text).to(base_s),
+                    "RelativeJSONPointer(text).to(JSONPointer(base))": lambda: RelativeJSONPointer(text).to(JSONPointer(base_s)),
+                    "JSONPointer(base).to(RelativeJSONPointer(text))": lambda: JSONPointer(base_s).to(RelativeJSONPointer(text)),
+                }
+                for name, fn in forms.items():
+                    r = core.outcome(lambda: str(fn()))
+                    ri = {"ok": r["ok"]} if "ok" in r else {"err": r["err"]}
+                    if ri != impl:
+                        ctx.violation("every way of applying a relative pointer to a base must give the same pointer", {"text": text, "base": base_s, "form": name}, ri, impl)
+                if "ok" in o:
+                    res = JSONPointer(base_s).to(text)
+                    again = core.outcome(lambda: JSONPointer(str(res)))
+                    if "ok" in again and not (again["ok"] == res and [str(x) for x in again["ok"].parts] == [str(x) for x in res.parts]):
+                        ctx.violation("the pointer produced by applying a relative pointer must equal the pointer parsed from its own text", {"text": text, "base": base_s}, [str(x) for x in res.parts], [str(x) for x in again["ok"].parts])
         else:
             if m["text"] != text:
                 ctx.mismatch("rel.spec text", c, text, m["text"])
